@@ -60,6 +60,11 @@ def check(ctx):
                "backward: the fill starts at min(task.end, bound); its first booked day is the day before midnight of that date", floor=2)
     ctx.guarded(o, lambda o: c09.fill_start(ctx, o, psb))
 
+    o = ctx.ob('backward_start_covers_reservations', 'R8',
+               "backward: the start of a leaf is the date returned by the fill loop, or min(user-fixed start, that date): no "
+               "reservation lies before the returned start", floor=1)
+    ctx.guarded(o, lambda o: backward_start(ctx, o, psb))
+
     o = ctx.ob('forward_fixed_dates_kept', 'R3',
                "forward: every store to start/end of a non-milestone task is dominated by `<field> is None` (user-fixed dates are returned unchanged)", floor=4)
     ctx.guarded(o, lambda o: fixed_dates(ctx, o, psf))
@@ -130,6 +135,28 @@ def only_leaves(ctx, o, ps: PassShape):
         for c in facts.calls_named(f, fill.name):
             if f.cls == ps.S['cls']:
                 o.refute(f, c, c, "the fill loop is also called from outside the pass")
+
+
+def backward_start(ctx, o, ps: PassShape):
+    fill = ctx.prog.func(ps.S['fill'])
+    sts = [x for x in ps.stores('start') if x[3]['milestone'] is False and x[3]['leaf'] is True]
+    if not sts:
+        o.refute(ps.f, ps.f.node, 'leaf start', "the start of a leaf is never computed")
+        return
+    for st, tgt, val, reg in sts:
+        v = ps.ex.expand(val, ps.cfg.node_of(st))
+        for conds, case in sched.expr_cases(v):
+            args = facts.flatten_lattice(case, 'min') or [case]
+            fc = [a for a in args if isinstance(a, ast.Call) and isinstance(a.func, ast.Attribute) and unmangle(a.func.attr) == fill.name]
+            rest = [a for a in args if a not in fc]
+            where = (" when " + ", ".join(facts.cond_texts(conds))) if conds else ""
+            if len(fc) != 1:
+                o.refute(ps.f, st, st, f"the start of a leaf is `{src(case)[:80]}`{where}: not bounded by the date the fill loop returns, "
+                                       f"so reservations can lie before the returned start")
+            elif any(not match(f"{ps.task}.start", a) for a in rest):
+                o.refute(ps.f, st, st, f"the start of a leaf is `{src(case)[:80]}`{where}; expected the fill result or min(task.start, fill result)")
+            else:
+                o.site(ps.f, st, f"start = {src(case)[:70]}{where}")
 
 
 def fixed_dates(ctx, o, ps: PassShape):
